@@ -217,6 +217,173 @@ theorem block_id_is_out_coord (out : List Sym) (o : List Nat) (dims : List (Sym 
     simp [this]
   · simp [h1, hv]
 
+/-! ## 4b. `blockwise(align_arrays=False)` (map_blocks): the chunks an output index gets -/
+
+theorem lookupC_setC_same (m : List (Sym × List Nat)) (s : Sym) (v : List Nat) : lookupC (setC m s v) s = some v := by
+  induction m with
+  | nil => simp [setC, lookupC]
+  | cons p r ih =>
+    obtain ⟨k, w⟩ := p
+    by_cases h : k = s
+    · simp [setC, lookupC, h]
+    · simp [setC, lookupC, h, ih]
+
+theorem lookupC_setC_ne (m : List (Sym × List Nat)) (s t : Sym) (v : List Nat) (h : t ≠ s) :
+    lookupC (setC m s v) t = lookupC m t := by
+  induction m with
+  | nil => simp [setC, lookupC, Ne.symm h]
+  | cons p r ih =>
+    obtain ⟨k, w⟩ := p
+    by_cases h0 : k = s
+    · subst h0; simp [setC, lookupC, Ne.symm h]
+    · by_cases h1 : k = t
+      · subst h1; simp [setC, lookupC, h0]
+      · simp [setC, lookupC, h0, h1, ih]
+
+/-- what is known about `chunkss[s]` after the pairs `done` have been processed -/
+def AlignInv (m : List (Sym × List Nat)) (done : List (Sym × List Nat)) : Prop :=
+  ∀ s, (lookupC m s = none → ∀ c, (s, c) ∉ done) ∧
+    (∀ r, lookupC m s = some r → (s, r) ∈ done ∧ (∀ c, (s, c) ∈ done → c.length ≤ r.length) ∧
+      (r = [1] → ∀ c, (s, c) ∈ done → c = [1]))
+
+theorem alignStep_inv (m : List (Sym × List Nat)) (done : List (Sym × List Nat)) (p : Sym × List Nat) (hp : p.2 ≠ [])
+    (hne : ∀ q ∈ done, q.2 ≠ []) (h : AlignInv m done) : AlignInv (alignStep m p) (done ++ [p]) := by
+  obtain ⟨s0, c0⟩ := p
+  have hc0 : 1 ≤ c0.length := by
+    cases c0 with
+    | nil => exact absurd rfl hp
+    | cons _ _ => simp
+  intro s
+  by_cases hs : s = s0
+  · subst hs
+    unfold alignStep
+    simp only
+    cases hl : lookupC m s with
+    | none =>
+      -- first pair for this index
+      have hnone := (h s).1 hl
+      simp only [lookupC_setC_same]
+      refine ⟨by intro hh; simp at hh, ?_⟩
+      intro r hr
+      injection hr with hr
+      subst hr
+      refine ⟨by simp, ?_, ?_⟩
+      · intro c hc
+        rcases List.mem_append.mp hc with hc | hc
+        · exact absurd hc (hnone c)
+        · simp at hc; simp [hc]
+      · intro _ c hc
+        rcases List.mem_append.mp hc with hc | hc
+        · exact absurd hc (hnone c)
+        · simp at hc; rw [hc]; assumption
+    | some cur =>
+      obtain ⟨hmem, hmax, hone⟩ := (h s).2 cur hl
+      by_cases hrep : (c0.length > cur.length || cur == [1]) = true
+      · simp only [hrep, if_true, lookupC_setC_same]
+        refine ⟨by intro hh; simp at hh, ?_⟩
+        intro r hr
+        injection hr with hr
+        subst hr
+        have hcur1 : 1 ≤ cur.length := by
+          have := hne (s, cur) hmem
+          cases cur with
+          | nil => exact absurd rfl this
+          | cons _ _ => simp
+        have hlen : cur.length ≤ c0.length := by
+          simp only [Bool.or_eq_true, decide_eq_true_eq, beq_iff_eq] at hrep
+          rcases hrep with h1 | h1
+          · omega
+          · subst h1; simpa using hc0
+        refine ⟨by simp, ?_, ?_⟩
+        · intro c hc
+          rcases List.mem_append.mp hc with hc | hc
+          · exact Nat.le_trans (hmax c hc) hlen
+          · simp at hc; simp [hc]
+        · intro h1 c hc
+          rcases List.mem_append.mp hc with hc | hc
+          · -- the new value is [1]: then the old one had length ≤ 1 …
+            have hcl := hmax c hc
+            simp only [Bool.or_eq_true, decide_eq_true_eq, beq_iff_eq] at hrep
+            rcases hrep with h2 | h2
+            · exfalso
+              rw [h1] at h2
+              simp only [List.length_cons, List.length_nil] at h2
+              omega
+            · exact hone h2 c hc
+          · simp at hc; rw [hc]; exact h1
+      · simp only [hrep, Bool.false_eq_true, if_false, hl]
+        simp only [Bool.or_eq_true, decide_eq_true_eq, beq_iff_eq, not_or] at hrep
+        refine ⟨by intro hh; simp at hh, ?_⟩
+        intro r hr
+        injection hr with hr
+        subst hr
+        refine ⟨by simp [hmem], ?_, ?_⟩
+        · intro c hc
+          rcases List.mem_append.mp hc with hc | hc
+          · exact hmax c hc
+          · simp at hc; rw [hc]; omega
+        · intro h1; exact absurd h1 hrep.2
+  · -- another index: untouched
+    have hstep : lookupC (alignStep m (s0, c0)) s = lookupC m s := by
+      unfold alignStep
+      simp only
+      cases hl : lookupC m s0 with
+      | none => exact lookupC_setC_ne m s0 s c0 hs
+      | some cur =>
+        by_cases hrep : (c0.length > cur.length || cur == [1]) = true
+        · simp only [hrep, if_true]; exact lookupC_setC_ne m s0 s c0 hs
+        · simp only [hrep, Bool.false_eq_true, if_false]
+    rw [hstep]
+    have hmemiff : ∀ c, (s, c) ∈ done ++ [(s0, c0)] ↔ (s, c) ∈ done := by
+      intro c
+      constructor
+      · intro hc
+        rcases List.mem_append.mp hc with hc | hc
+        · exact hc
+        · simp at hc; exact absurd hc.1 hs
+      · intro hc; exact List.mem_append_left _ hc
+    refine ⟨?_, ?_⟩
+    · intro hn c hc
+      exact (h s).1 hn c ((hmemiff c).mp hc)
+    · intro r hr
+      obtain ⟨h1, h2, h3⟩ := (h s).2 r hr
+      exact ⟨(hmemiff r).mpr h1, fun c hc => h2 c ((hmemiff c).mp hc), fun hh c hc => h3 hh c ((hmemiff c).mp hc)⟩
+
+theorem alignFold_inv (ps : List (Sym × List Nat)) : ∀ (m : List (Sym × List Nat)) (done : List (Sym × List Nat)),
+    (∀ q ∈ done ++ ps, q.2 ≠ []) → AlignInv m done → AlignInv (ps.foldl alignStep m) (done ++ ps) := by
+  induction ps with
+  | nil => intro m done _ h; simpa using h
+  | cons p r ih =>
+    intro m done hne h
+    simp only [List.foldl_cons]
+    have h1 := alignStep_inv m done p (hne p (by simp)) (fun q hq => hne q (by simp [hq])) h
+    have := ih (alignStep m p) (done ++ [p]) (by simpa using hne) h1
+    simpa using this
+
+/-- **alignFalse_picks.** `blockwise(align_arrays=False)` (after fix 0254c84) gives every index the chunks of ONE of the
+    inputs that have it, with the maximal number of blocks, and never the broadcast chunking `(1,)` unless every input
+    has `(1,)` there: a length-one input listed first no longer dictates the output chunks. -/
+theorem alignFalse_picks (args : List AArg) (hne : ∀ a ∈ args, ∀ c ∈ a.chunks, c ≠ [])
+    (s : Sym) (c0 : List Nat) (hc0 : (s, c0) ∈ args.flatMap (fun a => a.ind.zip a.chunks)) :
+    ∃ r, lookupC (alignFalseChunks args) s = some r ∧ (s, r) ∈ args.flatMap (fun a => a.ind.zip a.chunks) ∧
+      (∀ c, (s, c) ∈ args.flatMap (fun a => a.ind.zip a.chunks) → c.length ≤ r.length) ∧
+      (r = [1] → ∀ c, (s, c) ∈ args.flatMap (fun a => a.ind.zip a.chunks) → c = [1]) := by
+  have hne' : ∀ q ∈ ([] : List (Sym × List Nat)) ++ args.flatMap (fun a => a.ind.zip a.chunks), q.2 ≠ [] := by
+    intro q hq
+    simp only [List.nil_append, List.mem_flatMap] at hq
+    obtain ⟨a, ha, hq⟩ := hq
+    exact hne a ha q.2 (List.of_mem_zip (show (q.1, q.2) ∈ a.ind.zip a.chunks from hq)).2
+  have hinv := alignFold_inv (args.flatMap (fun a => a.ind.zip a.chunks)) [] [] hne'
+    (by intro s; exact ⟨fun _ c hc => by simp at hc, fun r hr => by simp [lookupC] at hr⟩)
+  simp only [List.nil_append] at hinv
+  unfold alignFalseChunks
+  cases hl : lookupC ((args.flatMap fun a => a.ind.zip a.chunks).foldl alignStep []) s with
+  | none => exact absurd hc0 ((hinv s).1 hl c0)
+  | some r => exact ⟨r, rfl, (hinv s).2 r hl⟩
+
+/-- the repaired case: a broadcast input first, a longer single-chunk input second -/
+example : alignFalseChunks [⟨[0], [[1]]⟩, ⟨[0], [[4]]⟩] = [(0, [4])] := by decide
+
 /-! ## 5. gufunc loop dimensions -/
 
 /-- **loopDims_right_aligned.** An argument with `n ≤ mx` loop dimensions gets the names `mx-n, …, mx-1`; the output
